@@ -97,6 +97,10 @@ type dialResult struct {
 	done chan struct{}
 	conn *wsConnection
 	err  error
+	// dialerGone reports that the dial failed while the dialling subscriber's own context was
+	// already done: the failure (which surfaces as anything from context.Canceled to a closed
+	// socket) is that subscriber's, not the waiters'.
+	dialerGone bool
 }
 
 // NewWSTransport creates a new WSTransport. Connections are not closed when ctx
@@ -204,12 +208,16 @@ func (t *WSTransport) getOrDial(ctx context.Context, opts common.Options) (*wsCo
 
 	t.mu.Lock()
 
-	if conn, ok := t.conns[key]; ok && !conn.isClosed() {
-		t.mu.Unlock()
-		return conn, nil
-	}
+	for {
+		if conn, ok := t.conns[key]; ok && !conn.isClosed() {
+			t.mu.Unlock()
+			return conn, nil
+		}
 
-	if result, ok := t.dialing[key]; ok {
+		result, ok := t.dialing[key]
+		if !ok {
+			break
+		}
 		t.mu.Unlock()
 		select {
 		case <-ctx.Done():
@@ -217,11 +225,15 @@ func (t *WSTransport) getOrDial(ctx context.Context, opts common.Options) (*wsCo
 		case <-result.done:
 		}
 
-		if result.err != nil {
+		if result.err == nil {
+			return result.conn, nil
+		}
+		if ctx.Err() != nil || !result.dialerGone {
 			return nil, result.err
 		}
-
-		return result.conn, nil
+		// The dial was made with the dialling subscriber's context, and that subscriber went
+		// away. This says nothing about our subscription: try again, possibly dialling ourselves.
+		t.mu.Lock()
 	}
 
 	result := &dialResult{done: make(chan struct{})}
@@ -232,6 +244,7 @@ func (t *WSTransport) getOrDial(ctx context.Context, opts common.Options) (*wsCo
 
 	result.conn = conn
 	result.err = err
+	result.dialerGone = err != nil && ctx.Err() != nil
 	close(result.done)
 
 	t.mu.Lock()
